@@ -6,7 +6,7 @@
    (Generated/GenFramerB.v); [crc16_bitwise], [spec_adu_*], [spec_rx_*] are the spec side. *)
 From PM.theories Require Import Base Expr Struct FrBCode Crc FrBCommon FrRtu FrBin FrSpecB.
 From PM.Generated Require Import GenFramerB.
-From PM.proofs Require Import Crc_proofs FrB_witness_proofs FrB_rtu_proofs FrB_bin_proofs.
+From PM.proofs Require Import Crc_proofs FrB_witness_proofs FrB_rtu_proofs FrB_bin_proofs FrB_rtu_client_proofs.
 Open Scope list_scope.
 Open Scope N_scope.
 
@@ -71,6 +71,29 @@ Theorem C03_whole_frame_rtu : forall cfg u pdu, valid_frame cfg true u pdu ->
   rtu_recv cfg rtu_init (spec_adu_rtu u pdu) = ({| r_buf := []; r_hdr := hdr_empty |}, [(pdu, Z.of_N u)], FOk).
 Proof. exact rtu_whole_frame. Qed.
 Print Assumptions C03_whole_frame_rtu.
+
+(* ... and to ANY state reachable from rtu_init by rtu_recv / resetFrame ([rtu_inv]) whose buffer
+   is empty, whatever header is left over *)
+Theorem C03_whole_frame_rtu_any_state : forall cfg st u pdu,
+  rtu_inv st -> r_buf st = [] -> valid_frame cfg true u pdu ->
+  rtu_recv cfg st (spec_adu_rtu u pdu) = ({| r_buf := []; r_hdr := hdr_empty |}, [(pdu, Z.of_N u)], FOk).
+Proof. exact rtu_whole_frame_any. Qed.
+Print Assumptions C03_whole_frame_rtu_any_state.
+
+(* [rtu_inv] (header {} , the initial dict, or populated over a non-empty buffer) is an invariant
+   for decoder tables with prefix-stable size rules: initial state, resetFrame, every call whatever
+   its exit; the request table and the response table minus FIFO / MEI are such tables *)
+Theorem C03_rtu_invariant :
+  rtu_inv rtu_init /\ (forall st, rtu_inv (rtu_reset st)) /\
+  (forall cfg st chunk st' ds x, table_simple (cf_rules cfg) = true -> wfb (r_buf st ++ chunk) = true ->
+     rtu_inv st -> rtu_recv cfg st chunk = (st', ds, x) -> rtu_inv st') /\
+  table_simple server_decoder = true /\ table_simple client_simple = true /\
+  (forall fc, fc <> 24%Z -> fc <> 43%Z -> lookup_rule client_simple fc = lookup_rule client_decoder fc).
+Proof.
+  split; [exact rtu_inv_init|]. split; [exact rtu_inv_reset|]. split; [exact rtu_inv_recv|].
+  split; [exact server_simple_ok|]. split; [exact client_simple_ok|exact client_simple_lookup].
+Qed.
+Print Assumptions C03_rtu_invariant.
 
 Example C03_nonvacuous :
   let cfg := {| cf_dec := fun _ => DMsg; cf_rules := server_decoder; cf_units := [1%Z]; cf_single := false |} in
